@@ -220,6 +220,26 @@ fn generate(cli: &Cli) -> (Vec<Case>, Vec<String>) {
         ("ConfCookieResponse", Pkt::ConfCookieResponse { raw: vec![1, b'k', 0] }),
         ("ClientInformationAgain", client_information("de_de")),
     ];
+    // F11: frames whose announced length has zero low bits (128, 256, 16384: prefixes 80 01, 80 02,
+    // 80 80 01) cut inside the length prefix: the first prefix byte(s) alone look like "length 0"
+    for body in [128usize, 256, 384, 16_384] {
+        let spec = BaseSpec { name: "round-length", intent: Intent::Login, secret: true, lat: [5_000, 0, 0], extras: vec![(1_000, plugin_message(body - 17))], no_target: false, ci_delay_ms: 0 };
+        let base = build_base(&spec, cli.seed ^ 0xfc);
+        let brun = run(&base);
+        match brun.client.sent.iter().find(|s| s.label.starts_with("Extra")) {
+            Some(s) => {
+                for o in [1usize, 2, 3, 4] {
+                    cases.push(Case {
+                        class: format!("round-length/{body}@{o}"),
+                        shape: "read/cut-inside-length-prefix/round-length".into(),
+                        base: base.clone(),
+                        variant: with_split(&base, s.index, vec![(o, Duration::from_millis(200))]),
+                    });
+                }
+            }
+            None => problems.push(format!("round-length base {body}: the extra frame was not sent")),
+        }
+    }
     // F10: the transport delays a whole tolerated frame until routing is over (it is then never
     // read): same outcome as when it arrives in the middle of a backend call
     for (fname, pkt) in &frames {
@@ -456,6 +476,40 @@ pub fn run_prop(cli: &Cli) -> i32 {
 }
 
 
+/// Keep Alives are packets the connection sends, too. They are projected out of the trace because a
+/// delayed client legitimately waits a little longer (one Keep Alive more or less at the end); but
+/// *when* they are sent while both runs are waiting must not depend on how the client's bytes were
+/// cut. Compared: the Keep Alive instants inside the period in which both runs are in the
+/// configuration phase, for variants that only differ on the client-to-server side.
+fn keep_alive_instants_differ(c: &Case, b: &Run, v: &Run) -> Option<(String, Value)> {
+    let plain = |sc: &Scenario| sc.write_plan.steps.is_empty() && sc.write_plan.stalls.is_empty();
+    if !plain(&c.base) || !plain(&c.variant) {
+        return None;
+    }
+    let ack = |r: &Run| r.client.sent.iter().find(|s| s.label == "LoginAcknowledged").map(|s| s.t_ns);
+    let end = |r: &Run| {
+        let f = facts(r);
+        f.transfers.first().map(|t| t.2).or(f.disconnects.first().map(|d| d.1)).or(r.result_at_ns).unwrap_or(r.end_ns)
+    };
+    let (Some(ab), Some(av)) = (ack(b), ack(v)) else { return None };
+    let from = ab.max(av) + MS;
+    let to = end(b).min(end(v)).saturating_sub(MS);
+    if to <= from {
+        return None;
+    }
+    let inside = |r: &Run| -> Vec<u64> { facts(r).keep_alives.iter().map(|k| k.1).filter(|t| *t >= from && *t <= to).collect() };
+    let (kb, kv) = (inside(b), inside(v));
+    let same = kb.len() == kv.len() && kb.iter().zip(kv.iter()).all(|(x, y)| x.abs_diff(*y) <= MS);
+    if same {
+        return None;
+    }
+    let secs = |v: &[u64]| v.iter().map(|t| *t as f64 / 1e9).collect::<Vec<_>>();
+    Some((
+        format!("while both runs were waiting ({:.3} s .. {:.3} s) the unsegmented run was sent Keep Alives at {:?} s, the segmented/timed run at {:?} s", from as f64 / 1e9, to as f64 / 1e9, secs(&kb), secs(&kv)),
+        json!({"compared_from_s": from as f64 / 1e9, "compared_to_s": to as f64 / 1e9, "baseline_keep_alive_s": secs(&kb), "variant_keep_alive_s": secs(&kv), "segmentation": format!("{:?}", c.variant.client.seg)}),
+    ))
+}
+
 fn evaluate(cli: &Cli, report: &mut Report, cases: Vec<Case>) {
     let results = par_map(cases, cli.threads(), |_, c| {
         let b = run(&c.base);
@@ -489,6 +543,8 @@ fn evaluate(cli: &Cli, report: &mut Report, cases: Vec<Case>) {
                 "a frame sent to the client arrived incomplete, interleaved or undecodable".into(),
                 witness(&c.variant, &v, json!({"baseline_trace": tb, "segmentation": format!("{:?}", c.variant.client.seg), "read_plan": format!("{:?}", c.variant.read_plan), "write_plan": format!("{:?}", c.variant.write_plan)})),
             ));
+        } else if let Some((what, detail)) = keep_alive_instants_differ(c, &b, &v) {
+            findings.push((format!("keep-alive-instants-differ/{}", c.shape), what, witness(&c.variant, &v, detail)));
         } else if tb != tv {
             let first = tb.iter().zip(tv.iter()).position(|(a, b)| a != b).unwrap_or(tb.len().min(tv.len()));
             findings.push((
